@@ -374,7 +374,9 @@ def big_history(ctx, label, steps=None):
         h.add(h.s.op(0, 'var', n))
     # one large diagram: a conjunction of equivalences between variables that are far apart in the
     # order (exponential in the number of pairs): thousands of nodes, held throughout
-    m = rng.randint(8, 10) if ctx.tier == 'quick' else rng.randint(9, 13)
+    m = rng.randint(9, 11) if ctx.tier == 'quick' else rng.randint(9, 13)
+    if label in ('C03', 'C04'):
+        m = 12      # a computed table of > 2**14 entries before the heavy operations start
     lv = sorted(order[:2 * m], key=order.index)
     eq = 1
     for i in range(m):
@@ -385,6 +387,53 @@ def big_history(ctx, label, steps=None):
     h.add(f'ok {eq}')
     h.hold(eq)
     ctx.count('big-history:peak-nodes', len(h.b._succ))
+    ctx.count('big-history:cache-entries', len(h.b._ite_table))
+
+    def sampled(u, fixed):
+        """table of `u` on the sample assignments with some variables fixed to constants"""
+        saved = dict(st.masks)
+        try:
+            for q, val in fixed.items():
+                st.masks[q] = st.full if val else 0
+            return st.fresh().of(u)
+        finally:
+            st.masks.update(saved)
+            st.fresh()
+
+    # heavy operations ON the large diagram (nested recursions that call `ite` thousands of times)
+    heavy_kinds = {'C03': ['exists', 'forall'], 'C04': ['cofactor', 'compose', 'compose']}.get(
+        label, ['exists', 'forall', 'cofactor', 'compose'])
+    for _ in range(rng.randint(4, 6) if label in ('C03', 'C04') else rng.randint(2, 4)):
+        kind = rng.choice(heavy_kinds)
+        qs = rng.sample(lv, rng.randint(1, 3))
+        if kind in ('exists', 'forall'):
+            fa = kind == 'forall'
+            want = 0 if not fa else st.full
+            for bits in itertools.product([0, 1], repeat=len(qs)):
+                t = sampled(eq, dict(zip(qs, bits)))
+                want = (want & t) if fa else (want | t)
+            ans = h.s.op(0, 'quantify', eq, ','.join('n:' + q for q in qs), int(fa))
+        elif kind == 'cofactor':
+            vals = {q: rng.randint(0, 1) for q in qs}
+            want = sampled(eq, vals)
+            ans = h.s.op(0, 'let_b', eq, ','.join(f'n:{q}={v}' for q, v in vals.items()))
+        else:
+            q = qs[0]
+            g = rng.choice([x for x in h.pool if abs(x) in h.b._succ])
+            tg = st.fresh().of(g)
+            t1, t0 = sampled(eq, {q: 1}), sampled(eq, {q: 0})
+            want = (tg & t1) | (st.neg(tg) & t0)
+            ans = h.s.op(0, 'let_r', eq, f'{q}={g}')
+        res = h.add(ans)
+        ctx.evaluations += 1
+        ctx.count('big-history:heavy-' + kind)
+        if res is None or st.fresh().of(res) != want:
+            ctx.violation(f'{kind} wrong on a large diagram', dict(
+                nvars=nv, nodes=len(h.b._succ), cache=len(h.b._ite_table), lines=list(h.s.lines),
+                got=ans, tags=dict(call=kind + '-wide')))
+            return h
+        if rng.random() < 0.5:
+            h.hold(res)
     for i in range(steps or rng.randint(150, 400)):
         r = rng.random()
         h.prune()
@@ -812,6 +861,10 @@ def check_C03(ctx):
         ctx.case(('quantify-history', k, len(h.s.lines)))
         h.finish(SECTIONS_L3, 'C03 history')
     _quantify_wide(ctx, 4 if ctx.tier == 'quick' else 40)
+    for _ in range(1 if ctx.tier == 'quick' else 8):
+        if ctx.time_left() < 10:
+            break
+        big_history(ctx, 'C03', steps=40).finish(SECTIONS_L3, 'C03 wide history')
     if ctx.tier == 'thorough':
         _quantify_four(ctx)
 
@@ -969,6 +1022,10 @@ def check_C04(ctx):
         checked_subst_history(ctx, h, rng.randint(20, 80), ['cofactor', 'rename', 'compose'])
         ctx.case(('let-history', k, len(h.s.lines)))
         h.finish(SECTIONS_L3, 'C04 history')
+    for _ in range(1 if ctx.tier == 'quick' else 8):
+        if ctx.time_left() < 10:
+            break
+        big_history(ctx, 'C04', steps=40).finish(SECTIONS_L3, 'C04 wide history')
     # empty dictionary: identity
     s = fresh(ctx, ABC)
     r = s.val(s.op(0, 'var', 'a'))
